@@ -102,3 +102,24 @@ package ice
 //@ enumerate C15 stores ice.TCPMuxDefault.closed in (*TCPMuxDefault).Close
 //@ enumerate C15 stores ice.TCPMuxDefault.connsIPv4 in NewTCPMuxDefault, (*TCPMuxDefault).Close
 //@ enumerate C15 stores ice.TCPMuxDefault.connsIPv6 in NewTCPMuxDefault, (*TCPMuxDefault).Close
+
+// Per-ufrag packet connection: outgoing packets leave on the TCP connection
+// registered for exactly that remote address (unknown remote: nothing is written);
+// a connection is attached under its remote address, once, and never to a closed
+// packet connection.
+//@ func (*tcpPacketConn).WriteTo
+//@   props C15
+//@   opt nosafety
+//@   ghostvar key int = 0
+//@   site call String#1 assert keyed-by-the-destination-address: recv == rAddr
+//@   site call String#1 ghost key := result
+//@   site call writeStreamingPacket#1 assert writes-the-callers-bytes-on-the-connection-of-that-remote: ok && arg1 == buf && has(t.conns, key) && arg0 == t.conns[key]
+//@   ensures unknown-remote-writes-nothing: !has(old(t.conns), key) ==> n == 0 && err != nil
+
+//@ func (*tcpPacketConn).AddConn
+//@   props C15
+//@   opt nosafety
+//@   ghostvar dup bool = false
+//@   site call String#1 ghost dup := has(t.conns, result)
+//@   ensures closed-packet-conn-attaches-nothing: old(closed(t.closedChan)) ==> result != nil
+//@   ensures a-remote-address-is-attached-at-most-once: !old(closed(t.closedChan)) && dup ==> result != nil
